@@ -35,6 +35,7 @@ type batchSpec struct {
 	FaultFree bool
 	EnvV      *envVariant
 	Share     float64 // share of the check's time budget (default: equal shares)
+	Bin       string  // "" = zsim, "fg" = the fine-grain build (zsim.fg)
 }
 
 func jsonRoundTrip(in any, out any) error {
@@ -112,6 +113,9 @@ func spawnRun(spec batchSpec, tier string, seed uint64, planFile string, keepLog
 	ctx, cancel := context.WithTimeout(context.Background(), timeout)
 	defer cancel()
 	exe := selfExe(spec.Race)
+	if spec.Bin == "fg" {
+		exe = filepath.Join(verifRoot(), "bin", "zsim.fg")
+	}
 	var cmd *exec.Cmd
 	var straceOut string
 	if spec.Strace {
@@ -437,6 +441,12 @@ func driveMain(args []string) {
 		}
 		deadline = time.Now().Add(time.Duration(float64(left) * b.Share / shareLeft))
 		shareLeft -= b.Share
+		if b.Runs == 0 && !(b.Bin == "fg" && os.Getenv("ZSIM_FINEGRAIN") != "") {
+			continue // batch not part of this tier
+		}
+		if b.Bin == "fg" && b.Runs == 0 {
+			b.Runs = 600
+		}
 		b.Runs = int(float64(b.Runs) * *scale)
 		if b.Runs < 1 {
 			b.Runs = 1
@@ -453,7 +463,7 @@ func driveMain(args []string) {
 		aggs = append(aggs, agg)
 		harness = append(harness, agg.HarnessErr...)
 		fmt.Printf("zsim: batch %-22s runs=%d steps=%d checks=%d violations=%d wall=%.1fs\n", b.Label, agg.Runs, agg.Steps, agg.Checks, len(agg.Violations), agg.WallS)
-		if b.Special == "" && !b.Race && len(agg.Hashes) > 0 {
+		if b.Special == "" && !b.Race && b.Bin == "" && len(agg.Hashes) > 0 {
 			if bad := recheckDeterminism(agg, *tier); len(bad) > 0 {
 				harness = append(harness, "harness nondeterministic: "+strings.Join(bad, "; "))
 			}
@@ -623,6 +633,9 @@ func replayMain(args []string) {
 		}
 		if r, ok := p.Knobs["race_build"].(bool); ok {
 			spec.Race = r
+		}
+		if fg, ok := p.Knobs["finegrain"].(bool); ok && fg {
+			spec.Bin = "fg"
 		}
 		if mp, ok := p.Knobs["gomaxprocs"].(float64); ok {
 			spec.MaxProcs = int(mp)
